@@ -23,17 +23,23 @@
 (* IMPLEMENTATION LEVEL (what the code does, src/snapshot.rs, src/lsm.rs): *)
 (* versions sit in the active memtable, immutable memtables, level-0       *)
 (* tables, deeper levels and - when the B+tree version index is on - in    *)
-(* `index`, which a flush fills BEFORE the manifest switches and which is  *)
-(* keyed by (user key, timestamp) ONLY (TimestampComparator): inserting a  *)
-(* second version with the same key and timestamp keeps the first entry's  *)
-(* key bytes (sequence number, kind) and takes the new value.  Compaction  *)
+(* `index`, which a flush fills BEFORE the manifest switches.  Compaction  *)
 (* applies Retention!Rule and never touches the index except for the       *)
 (* clean-up of entries whose value-log file is gone.                       *)
-(* history() merges the sources of the chosen back-end (k-way merge, ties  *)
-(* to the earlier source) and filters the merged stream exactly as         *)
-(* HistoryIterator::skip_to_valid_forward / collect_user_key_backward do:  *)
-(* horizon, timestamp range, first-visible hard delete, barrier_seen,      *)
-(* tombstones, limit - in that order.                                      *)
+(* history() merges the sources of the chosen back-end (k-way merge: the   *)
+(* index back-end by timestamp, the LSM back-end in commit order) and      *)
+(* filters the merged stream as HistoryIterator::skip_to_valid_forward /   *)
+(* collect_user_key_backward do: horizon, first-visible hard delete,       *)
+(* barrier_seen, tombstones, timestamp range, limit - in that order.       *)
+(*                                                                         *)
+(* Impl = "repo" is the code as it is now.  Impl = "pinned" is the read    *)
+(* path before the repairs of C10 (known_findings.json, status fixed):     *)
+(* timestamp range applied before the barrier rule and the LSM back-end    *)
+(* merged by timestamp when a range is given; TimestampComparator =        *)
+(* (key, timestamp) only, so equal timestamps are merged in source order   *)
+(* and share one index slot (the slot keeps its key bytes and takes the    *)
+(* new value); a backward walk ends at a key with nothing to show.  The    *)
+(* pinned model is kept for the teeth run (HistoryMC!Teeth).               *)
 (***************************************************************************)
 EXTENDS Retention, TLC
 
@@ -48,8 +54,9 @@ CONSTANTS
     TickSteps,     \* set of clock increments
     RuleVariant,   \* variant of Retention!Rule used by compaction ("repo" | "ideal")
     IndexGC,       \* BOOLEAN: one value-log file per value, stale index entries are cleaned after flush / compaction
-    Impl           \* read side modelled: "repo" (as the code is) | "ideal" (barrier rule before the timestamp
-                   \* filter, index slots keyed by (key, timestamp, sequence number))
+    Impl           \* read side modelled: "repo" = the code as it is (barrier rule before the timestamp range, versions
+                   \* with one timestamp ordered by sequence number, a key with nothing to show does not end a
+                   \* backward walk) | "pinned" = the code before those repairs (kept for the teeth run)
 
 VARIABLES
     hist,      \* ghost: all committed versions
@@ -172,19 +179,22 @@ RECURSIVE KMerge(_, _)
 KMerge(runs, byTs) ==
     LET live == {i \in 1..Len(runs) : runs[i] # <<>>} IN
     IF live = {} THEN <<>>
-    ELSE LET Before(a, b) == IF byTs THEN a.ts > b.ts ELSE a.seq > b.seq
+    ELSE LET Before(a, b) == IF byTs THEN a.ts > b.ts \/ (Impl = "repo" /\ a.ts = b.ts /\ a.seq > b.seq)
+                                     ELSE a.seq > b.seq
              w == CHOOSE i \in live :
                     \A j \in live : /\ (j < i) => Before(Head(runs[i]), Head(runs[j]))
                                     /\ (j > i) => ~Before(Head(runs[j]), Head(runs[i]))
          IN <<Head(runs[w])>> \o KMerge([runs EXCEPT ![w] = Tail(@)], byTs)
 
-(* the index back-end always merges by timestamp, the LSM one only when a timestamp range is given *)
-Merged(b, k, o) == KMerge(Runs(b, k), b = "index" \/ o.ts # <<>>)
+(* the index back-end always merges by timestamp; the LSM one in commit order (pinned: by timestamp when a *)
+(* timestamp range is given)                                                                              *)
+LsmByTs(ts) == Impl = "pinned" /\ ts # <<>>
+Merged(b, k, o) == KMerge(Runs(b, k), b = "index" \/ LsmByTs(o.ts))
 
 IsTomb(v) == v.kind \in {"Del", "SoftDel"}
 
 (* HistoryIterator::skip_to_valid_forward over the merged versions of one key.                           *)
-(* st = [first, hard, barrier]; Impl = "ideal" applies the barrier logic before the timestamp filter.    *)
+(* st = [first, hard, barrier]; Impl = "repo" applies the barrier logic before the timestamp filter.    *)
 RECURSIVE FwdKey(_, _, _, _, _)
 FwdKey(L, i, h, o, st) ==
     IF i > Len(L) THEN <<>>
@@ -193,8 +203,8 @@ FwdKey(L, i, h, o, st) ==
              tsAbove == o.ts # <<>> /\ e.ts > o.ts[2]
              tsBelow == o.ts # <<>> /\ e.ts < o.ts[1]
          IN  IF e.seq > h THEN skip
-             ELSE IF Impl = "repo" /\ tsAbove THEN skip
-             ELSE IF Impl = "repo" /\ tsBelow THEN <<>>          \* advance_to_next_user_key
+             ELSE IF Impl = "pinned" /\ tsAbove THEN skip
+             ELSE IF Impl = "pinned" /\ tsBelow THEN <<>>          \* advance_to_next_user_key
              ELSE LET st1 == IF st.first THEN st ELSE [st EXCEPT !.first = TRUE, !.hard = (e.kind = "Del")]
                       rest(s) == FwdKey(L, i + 1, h, o, s)
                   IN  IF st1.hard THEN rest(st1)
@@ -202,14 +212,14 @@ FwdKey(L, i, h, o, st) ==
                       ELSE IF e.kind = "Del" THEN rest([st1 EXCEPT !.barrier = TRUE])
                       ELSE LET st2 == IF e.kind = "Replace" THEN [st1 EXCEPT !.barrier = TRUE] ELSE st1 IN
                            IF (~o.tomb) /\ IsTomb(e) THEN rest(st2)
-                           ELSE IF Impl = "ideal" /\ (tsAbove \/ tsBelow) THEN rest(st2)
+                           ELSE IF Impl = "repo" /\ (tsAbove \/ tsBelow) THEN rest(st2)
                            ELSE <<e>> \o rest(st2)
 
 St0 == [first |-> FALSE, hard |-> FALSE, barrier |-> FALSE]
 
 (* collect_user_key_backward: filter first, then the barrier search from the newest end *)
 BwdKey(L, h, o) ==
-    LET P(e) == e.seq <= h /\ (Impl = "ideal" \/ InTs(e, o))
+    LET P(e) == e.seq <= h /\ (Impl = "repo" \/ InTs(e, o))
         V == SelectSeq(L, P)
     IN  IF V = <<>> THEN <<>>
         ELSE IF V[1].kind = "Del" THEN <<>>
@@ -229,7 +239,7 @@ CodeList(b, o, h, backward) ==
     LET F(i) == IF backward THEN BwdKey(Merged(b, KeyOrder[i], o), h, o)
                 ELSE FwdKey(Merged(b, KeyOrder[i], o), 1, h, o, St0)
         stops == {i \in o.lo..(o.hi - 1) : HiddenKey(b, i, o, h)}
-        from == IF backward /\ Impl = "repo" /\ stops # {}
+        from == IF backward /\ Impl = "pinned" /\ stops # {}
                 THEN (CHOOSE i \in stops : \A j \in stops : j <= i) + 1 ELSE o.lo
         all == Concat(F, from, o.hi)
     IN  IF o.limit = 0 THEN all ELSE IF backward THEN TakeLast(all, o.limit) ELSE Take(all, o.limit)
@@ -283,7 +293,7 @@ Rotate ==
     /\ UNCHANGED <<hist, visible, now, l0, deep, index, tainted, collided, pcR, snapR>>
 
 (* B+tree insert under TimestampComparator: same (key, timestamp) = same slot; the slot keeps its key bytes *)
-SameSlot(e, v) == e.k = v.k /\ e.ts = v.ts /\ (Impl = "ideal" => e.seq = v.seq)
+SameSlot(e, v) == e.k = v.k /\ e.ts = v.ts /\ (Impl = "repo" => e.seq = v.seq)
 IdxInsert(idx, v) ==
     IF \E e \in idx : SameSlot(e, v)
     THEN LET e == CHOOSE e \in idx : SameSlot(e, v) IN (idx \ {e}) \cup {[e EXCEPT !.val = v.val]}
@@ -312,7 +322,7 @@ IdxClean(idx, z, d) ==
 FlushSet(S, z) ==
     LET idx1 == IdxInsertAll(index, MemOrder(S)) IN
     /\ index' = IdxClean(idx1, z, deep)
-    /\ collided' = [k \in Keys |-> collided[k] \/ (Impl = "repo" /\ Collides(index, S)[k])]
+    /\ collided' = [k \in Keys |-> collided[k] \/ (Impl = "pinned" /\ Collides(index, S)[k])]
 
 Flush ==
     /\ imm # <<>>
@@ -365,7 +375,7 @@ Reopen(mode) ==
                 r == FlushAll(index, l0, pend)
                 all == mem \cup UNION {imm[i] : i \in 1..Len(imm)}
             IN /\ index' = r[1] /\ l0' = r[2] /\ mem' = {} /\ imm' = <<>>
-               /\ collided' = [k \in Keys |-> collided[k] \/ (Impl = "repo" /\ Collides(index, all)[k])]
+               /\ collided' = [k \in Keys |-> collided[k] \/ (Impl = "pinned" /\ Collides(index, all)[k])]
        ELSE /\ mem' = mem \cup UNION {imm[i] : i \in 1..Len(imm)}
             /\ imm' = <<>>
             /\ UNCHANGED <<index, l0, collided>>
@@ -420,7 +430,7 @@ HasOooUnflushed(k, h) ==
 
 ExcusedKey(b, k, ts, h) ==
     \/ "expired_barrier" \in Known /\ tainted[k]
-    \/ "index_equal_ts" \in Known /\ (b = "index" \/ ts # <<>>) /\ HasEqualTs(k, h)
+    \/ "index_equal_ts" \in Known /\ (b = "index" \/ LsmByTs(ts)) /\ HasEqualTs(k, h)
     \/ "index_ooo_unflushed" \in Known /\ b = "index" /\ HasOooUnflushed(k, h)
     \/ "ts_filter_before_barrier" \in Known /\ BarrierOutsideRange(k, ts, h)
 
@@ -445,7 +455,7 @@ HistoryOK ==
                 mustK == Must(k, h)
             IN \A tomb \in BOOLEAN, ts \in TsChoices :
                 LET o == Opt(tomb, ts, 0, ki, ki + 1)
-                    M == IF b = "index" \/ ts # <<>> THEN Mt ELSE Ms
+                    M == IF b = "index" \/ LsmByTs(ts) THEN Mt ELSE Ms
                     may == {v \in mayK : Shown(v, o)}
                     must == {v \in mustK : Shown(v, o)}
                 IN \/ ExcusedKey(b, k, ts, h)
@@ -489,7 +499,7 @@ BackendsAgree ==
                 ki == KeyIdx(k)
             IN \A h \in ReadHorizons, tomb \in BOOLEAN, ts \in TsChoices :
                 LET o == Opt(tomb, ts, 0, ki, ki + 1)
-                    L == IF ts # <<>> THEN Lt ELSE Ls
+                    L == IF LsmByTs(ts) THEN Lt ELSE Ls
                 IN \/ ExcusedKey("index", k, ts, h)
                    \/ /\ FwdKey(It, 1, h, o, St0) = FwdKey(L, 1, h, o, St0)
                       /\ BwdKey(It, h, o) = BwdKey(L, h, o)
@@ -518,7 +528,7 @@ ReadPathOK ==
                /\ OutOfOrder \/ GetOK("lsm", Ls)
                /\ \A tomb \in BOOLEAN, ts \in TsChoices :
                     LET o == Opt(tomb, ts, 0, ki, ki + 1)
-                        Ml == IF ts # <<>> THEN Lt ELSE Ls
+                        Ml == IF LsmByTs(ts) THEN Lt ELSE Ls
                         may == {v \in mayK : Shown(v, o)}
                         must == {v \in mustK : Shown(v, o)}
                         Fi == FwdKey(It, 1, h, o, St0)
